@@ -15,7 +15,7 @@ from .. import common as C
 from .. import flock_drv as D
 
 PROP = 'C02'
-READY = False
+READY = True
 PROPS_MODULE = 'C02'
 MODEL_TARGETS = ['theories/Case_C02.vo']
 HEADER = ('From Coq Require Import List NArith. Import ListNotations.\n'
@@ -271,12 +271,20 @@ def distribution(cases, obs):
 
 
 LEVEL_TEXT = ('FileLock is modelled as a small-step machine (one step per gated primitive) over a kernel holder table '
-              '(coq/theories/FLock.v); props/C02.v proves, for ALL schedules of any number of processes, objects on one '
-              'path and threads, any mix of blocking / non-blocking / timed acquire, acquire_ctx, with, release, '
-              'release(force), any OSError script and any Crash events, that two threads inside imply the same thread and '
-              'that no other thread\'s or process\'s step ends a holder\'s tenure.  Tied to /repo by replaying, inside Coq, '
-              'the exact schedules on which the real class was just run under gated threads (all schedules of 2 threads x 1 '
-              'round up to a preemption bound, random beyond) and by multi-process marker-file runs.')
-LEVEL_NOTE = ('trusted: Coq kernel + vm_compute; no axioms; kernel flock semantics = assumption (validated, not proved); '
-              'threading.Lock/RLock modelled; contract: a thread releases only a lock it holds or an unheld one (ghost flag viol)')
+              '(coq/theories/FLock.v).  props/C02.v proves by an inductive invariant (thread-lock accounting TL, FLockInv/FLockTL.v; '
+              'descriptor/holder invariant FD, FLockFD.v), for ALL event lists (steps of any thread, clock advances, crashes), any '
+              'number of processes, objects on one path and threads, any mix of blocking / non-blocking / timed acquire, '
+              'acquire_ctx, with, release, release(force), reentrant or not, and ANY OSError script: '
+              'mutex_threads_objects_procs (two threads inside => the same thread), holder_until_release (no event of anybody '
+              'else ends a holder\'s tenure: it still owns the thread lock and its descriptor still carries the kernel lock), '
+              'contract_static + mutex_for_contract_respecting_programs (the contract "a thread releases only a lock it holds, '
+              'threads use objects of their own process" as a decidable predicate cfg_ok on programs; such programs never leave '
+              'the contract, so mutual exclusion holds with no hypothesis on the run), and mutex_refuted_outside_contract (the '
+              'contract is needed).  Tied to /repo by replaying, inside Coq, the exact schedules on which the real class was just '
+              'run under gated threads (all schedules of 2 threads x 1 round up to a preemption bound, random beyond) and by '
+              'multi-process marker-file runs.')
+LEVEL_NOTE = ('trusted: Coq kernel + vm_compute; no axioms (every theorem "Closed under the global context"); kernel flock '
+              'semantics = assumption of the model (validated by the shim table and the F-runs, not proved); threading.Lock/RLock '
+              'modelled; contract = ghost flag viol never raised (dynamic form) or cfg_ok (static form); inside = ghost list t_cs '
+              '(successful, not yet released acquires) of a live thread')
 TECHNIQUE = 'Coq proof (inductive invariant over all schedules incl. crashes and faults) + differential correspondence under gated threads evaluated by vm_compute + multi-process fault enumeration'
